@@ -1,7 +1,13 @@
 package checks
 
 import (
+	"os"
+	"encoding/json"
+	"sync"
+	"time"
+
 	"fmt"
+	"github.com/dtn7/dtn7-go/verif/vtime"
 
 	"github.com/dtn7/dtn7-go/verif/ev"
 	"github.com/dtn7/dtn7-go/verif/gen"
@@ -174,6 +180,8 @@ func runC05(r *ev.Run, thorough bool) int {
 	}
 	st.Transitions += execs
 	st.Validated += execs
+	wired := c05Wiring(r, thorough)
+	r.Add("wiring_scenarios", int64(wired))
 	if st.SendsSeen == 0 {
 		r.Violation("C05/vacuous", "none", "no bundle was ever sent", nil)
 	}
@@ -185,5 +193,118 @@ func runC05(r *ev.Run, thorough bool) int {
 		"distinct_nontrivial":           st.Outcomes,
 		"max_depth":                     st.MaxDepth,
 		"rule":                          fmt.Sprintf("BFS over event histories of a real routing.Core (per algorithm: %v) with mock convergence senders/agent under the virtual clock; %d-event alphabet (submit via SendBundle / agent path, zero-time bundle, reception with previous node, peers up/down, send outcome switches, retry tick, store-cleaning tick, clock advance below/above the lifetime, restart); successor = fresh node + replay + one event; states matched on store info, constraints, successful-transmission relation, connected peers, outcomes and copy counters; invariants evaluated in every state", c05Algos, len(c05Alphabet())),
-	}, []string{"events are injected into the channel the Core's handler really reads; retry/cleaning jobs are called synchronously (their cron wiring is checked separately)", "mock convergence senders serialise the bundle inside Send"})
+	}, []string{"events are injected into the channel the Core's handler really reads; retry/cleaning jobs are called synchronously as events; that the retry job is really registered and fires at its interval (also after a restart) is checked by a separate scenario that leaves the cron jobs in place and ticks the virtual clock", "mock convergence senders serialise the bundle inside Send"})
+}
+
+// ---- cron wiring: the pending-retry job really runs, at its interval, also after a restart ----
+
+type c05WireTask struct {
+	Algo    string `json:"algo"`
+	Restart bool   `json:"restart"`
+}
+
+type c05WireOut struct {
+	Key   string `json:"key,omitempty"`
+	Desc  string `json:"desc,omitempty"`
+	Ticks int    `json:"ticks"` // virtual seconds until the retry happened
+}
+
+func init() { workers["c05wire"] = c05WireWorker }
+
+// waitSends waits (bounded real time; it can only delay) until the node has recorded more than `before` sends.
+func (n *nhNode) waitSends(before int, d time.Duration) bool {
+	deadline := time.Now().Add(d)
+	for time.Now().Before(deadline) {
+		if n.nSends() > before {
+			return true
+		}
+		time.Sleep(2 * time.Millisecond)
+	}
+	return n.nSends() > before
+}
+
+func c05WireWorker(task []byte) []byte {
+	var t c05WireTask
+	_ = json.Unmarshal(task, &t)
+	useVirtualClock()
+	n, err := newNhNode(nhConfig{Algo: t.Algo, LiveCron: true})
+	if err != nil {
+		return mustJSON(c05WireOut{Key: "harness", Desc: err.Error()})
+	}
+	defer n.destroy()
+	b := gen.Spec{Dst: "dtn://dest/x", Src: "dtn://node/app", Rpt: "dtn://node/app", PCRC: 2, Time: DtnNow(), Lifetime: 3600000, PayLen: 6, PaySeed: 1}.Build()
+	n.setOutcome("dest", false)
+	n.submit(b)
+	n.peerUp("dest") // the transmission fails: the bundle waits for the retry job
+	if t.Restart {
+		if err := n.restart(); err != nil {
+			return mustJSON(c05WireOut{Key: "harness", Desc: err.Error()})
+		}
+		pp := n.peer("dest")
+		pp.up = true
+		n.core.RegisterConvergable(pp) // connected again, no appearance event: only the periodic job can retry
+	}
+	n.setOutcome("dest", true)
+	before := n.nSends()
+	// no event from now on: only the periodic job can transmit the bundle. Its interval is 10 s; tick the virtual
+	// clock second by second (the cron loop's ticker is handed every tick); any retry within a minute is accepted.
+	const horizon = 60 // virtual seconds; the registered interval is 10 s
+	for tick := 1; tick <= horizon; tick++ {
+		vtime.Advance(time.Second)
+		if os.Getenv("VERIF_DEBUG") != "" {
+			nd, _ := vtime.NextDeadline()
+			fmt.Fprintf(os.Stderr, "tick %d now=%v timers=%d next=%v sends=%d\n", tick, vtime.Now(), vtime.PendingTimers(), nd, n.nSends())
+		}
+		wait := 30 * time.Millisecond
+		if tick == horizon {
+			wait = 20 * time.Second
+		}
+		if n.waitSends(before, wait) {
+			n.flush()
+			for _, sd := range n.sendsSince(before) {
+				if sd.Peer == "dest" && idOfSend(sd) == b.ID().Scrub().String() {
+					return mustJSON(c05WireOut{Ticks: tick})
+				}
+			}
+		}
+	}
+	if os.Getenv("VERIF_DEBUG") != "" {
+		n.retryTick()
+		fmt.Fprintf(os.Stderr, "after explicit retry: sends=%d\n", n.nSends())
+	}
+	return mustJSON(c05WireOut{Key: "pending-bundle-not-retried-periodically", Desc: fmt.Sprintf("a bundle is pending, its destination is connected and would accept it, no further event occurs: 60 s of (virtual) time passed without the periodic retry job transmitting it (restart before: %v); registered jobs %v, store %+v, undelivered ticks %d", t.Restart, n.core.VerifCronJobs(), n.storeInfo(b.ID().Scrub()), vtime.Undelivered), Ticks: -1})
+}
+
+func c05Wiring(r *ev.Run, thorough bool) int {
+	algos := []string{"epidemic"}
+	if thorough {
+		algos = c05Algos
+	}
+	var tasks [][]byte
+	var descr []c05WireTask
+	for _, a := range algos {
+		for _, rs := range []bool{false, true} {
+			descr = append(descr, c05WireTask{a, rs})
+			tasks = append(tasks, mustJSON(c05WireTask{a, rs}))
+		}
+	}
+	var mu sync.Mutex
+	n := 0
+	runPool("c05wire", 0, tasks, func(i int, pr poolResult) {
+		mu.Lock()
+		defer mu.Unlock()
+		if pr.Crashed {
+			r.Violation("C05/wiring-crashed", "none", "process died: "+lastLines(pr.Stderr, 10), descr[i])
+			return
+		}
+		var o c05WireOut
+		_ = json.Unmarshal(pr.Res, &o)
+		n++
+		if o.Key != "" {
+			r.Violation("C05/"+o.Key, "none", o.Desc, descr[i])
+			return
+		}
+		r.Add("wiring_retry_after_virtual_seconds", int64(o.Ticks))
+	})
+	return n
 }
